@@ -1,6 +1,6 @@
 (* C12 theory, part 11: non-vacuity.  A concrete mapping set with a nested class, an inner
-   class whose outer class is absent, a class without target name, a constructor, a parameter
-   with a comment, comments with blank lines, leading spaces and `#`, packages: it satisfies the
+   class whose outer class is absent, a class without target name, a constructor, a static initialiser and
+   an identity-mapped method (both keep their target names), a parameter with a comment, comments with blank lines, leading spaces and `#`, packages: it satisfies the
    hypotheses of every theorem, and the round trip is computed on it. *)
 From FB Require Import C12.Model C12.TheoryTree C12.TheoryDet C12.TheoryRT.
 
@@ -8,8 +8,10 @@ Definition ex_classes : list class :=
   [ mkClass [Some [97; 47; 65]; Some [98; 47; 66]] (Some [104; 105; 10; 10; 32; 32; 35; 32; 120])   (* a/A -> b/B, "hi\n\n  # x" *)
       [mkField [73] [Some [102]; Some [103]] (Some [102; 100]); mkField [74] [Some [102]; None] None]
       [mkMeth [40; 73; 41; 86] [Some s_init; Some s_init] None
-         [mkParam 1 [Some [113]; Some [112]] (Some [100; 10; 101])];
-       mkMeth [40; 41; 86] [Some [109]; Some [110]] (Some [35]) []];
+         [mkParam 1 [None; Some [112]] (Some [100; 10; 101])];
+       mkMeth [40; 41; 86] [Some [109]; Some [110]] (Some [35]) [];
+       mkMeth [40; 41; 86] [Some s_clinit; Some s_clinit] None [];             (* <clinit> -> <clinit>: keeps its target *)
+       mkMeth [40; 41; 73] [Some [109]; Some [109]] None []];                  (* m -> m, identity-mapped *)
     mkClass [Some [97; 47; 65; 36; 67]; Some [98; 47; 66; 36; 68]] None [] [];                        (* a/A$C -> b/B$D *)
     mkClass [Some [97; 47; 65; 36; 67; 36; 49]; None] (Some []) [] [];                               (* a/A$C$1, no target *)
     mkClass [Some [88; 36; 89]; Some [90; 36; 87]] None [] [] ].                                     (* X$Y -> Z$W, X absent *)
@@ -30,12 +32,15 @@ Definition nonvacuous : Prop :=
 Lemma nodup_dec_str (l : list (list N * list N)) : nodupb key2_eqb l = true -> NoDup l.
 Proof. apply TheoryClass.nodupb_key2_NoDup. Qed.
 
+Ltac nd := repeat (apply NoDup_cons; [cbn; intuition discriminate|]); apply NoDup_nil.
+
 Lemma nonvacuous_holds : nonvacuous.
 Proof.
   unfold nonvacuous. split; [vm_compute; reflexivity|]. split; [vm_compute; reflexivity|]. split.
   - split.
     + apply nodupb_str_NoDup. vm_compute. reflexivity.
-    + repeat constructor; cbn; try (intros [H|H]; [discriminate|contradiction]); auto;
-        try (intros [H|[]]; discriminate).
+    + repeat (apply Forall_cons;
+        [split; [cbn; nd|split; [cbn; nd|repeat (apply Forall_cons; [unfold meth_keys_ok; cbn; nd|]); apply Forall_nil]]|]);
+      apply Forall_nil.
   - split; [|split; reflexivity]. vm_compute. split; [reflexivity|discriminate].
 Qed.
